@@ -1061,6 +1061,15 @@ class LibMixin:
             if isinstance(h, HODict):
                 return self.odict_set(st, obj, key, val)
             if isinstance(h, HList):
+                # xs[i] = v on a list with a concrete spine and a concrete index
+                ok_i, i_ = concrete(key)
+                if h.items is not None and ok_i and isinstance(i_, int) and not isinstance(i_, bool):
+                    n_ = len(h.items)
+                    if -n_ <= i_ < n_:
+                        h.items[i_] = val
+                        st.log.append(("setitem", obj.addr))
+                        return [(st, None)]
+                    return [self.raised(st, "IndexError", "list assignment index out of range")]
                 raise Unsupported("list item assignment")
             if isinstance(h, HObj):
                 m = load.find_method(h.cls[0], h.cls[1], "__setitem__")
